@@ -13,11 +13,12 @@ LEVEL_TEXT = ("Explicit TLA+ specification of the map checked by TLC (type invar
               "replayed on the real page table (result + projected map after each step). Determinism is a property of "
               "sets of executions: decided by executing each history several times (same OS process and separate OS processes) and comparing.")
 LEVEL_NOTE = ("Bounded: 2 processes x 2 virtual pages x 2 physical pages x 4 page contents (quick); 3 x 2 x 2 x 3 "
-              "(thorough). Insert of a present key and update/remove of an absent key are misuse the statement is silent "
+              "(thorough); with snapshots 3 x 1 x 2 x 2 (quick), 2 x 2 x 2 x 2 (thorough), one outstanding snapshot. Insert of a present key and update/remove of an absent key are misuse the statement is silent "
               "about: only 'a refused operation changes nothing' is compared there. Equality of repeated executions "
               "cannot prove determinism, it can only refute it; a nondeterministic choice that happens to agree in all "
               "the executions of every history would be missed.")
 
+RESTORES = ("rollback", "load_into_used")
 PROCESSES = 3   # separate OS processes per batch of histories
 RUNS = 3        # executions on fresh objects inside the first process (the other processes execute once)
 EXECUTIONS = RUNS + PROCESSES - 1
@@ -55,26 +56,40 @@ def run(ck):
     g = _graph(r)
     if not g.edges:
         raise core.Broken("no behaviours emitted by PageTable/%s" % cfg)
+    # second model: the same specification with snapshots (save ... rollback into the live table /
+    # load into another used table); the saved contents are part of the state, hence smaller bounds
+    scfg = "PageTable_snap_q.cfg" if quick else "PageTable_snap_t.cfg"
+    rs = ck.run_tlc(["container"], "PageTable", scfg, workers=4 if quick else 8, timeout=300 if quick else 900)
+    if not rs.ok:
+        raise core.Broken("specification PageTable/%s itself fails: %s %s\n%s" % (scfg, rs.violated, rs.error, "\n".join(rs.lines[-30:])))
+    gs = _graph(rs)
+    if not any(a["op"] == "rollback" for _, a, _ in gs.edges) or not any(a["op"] == "load_into_used" for _, a, _ in gs.edges):
+        raise core.Broken("no rollback / load_into_used behaviours emitted by PageTable/%s" % scfg)
     ck.cov["exhaustive"] = True
     ck.cov["rule"] = ("TLC enumerates the complete state graph of PageTable.tla (NP processes x NV virtual pages x NPA physical "
                       "pages, so physical pages are shared inside and between processes; insert, update, remove, find at two "
-                      "in-page offsets, reverse lookup, checkpoint save/load into a fresh table, plus refused misuse); every "
+                      "in-page offsets, reverse lookup, checkpoint save/load into a fresh table, plus refused misuse), and of the "
+                      "same specification with snapshots on smaller bounds (save; keep operating; rollback = load the snapshot "
+                      "into the same live table; load_into_used = load it into another table already used with other contents, "
+                      "for each choice of its most recently used process); every "
                       "transition is replayed on vm.PageTable (result and the whole map via Find compared after each step; a "
                       "reverse lookup must return one of the pages with that physical address, or not-found when none), then "
                       "seeded random walks. Every history is executed %d times (%d times on fresh tables inside one OS process, and "
                       "once in each of %d further OS processes); "
                       "all reverse-lookup answers (explicit, and before/after each checkpoint round trip) must be identical "
                       "in all executions, and equal before and after the round trip. Non-trivial = distinct history with a "
-                      "reverse lookup or checkpoint while a physical page is held by more than one page." % (EXECUTIONS, RUNS, PROCESSES - 1))
+                      "reverse lookup or checkpoint while a physical page is held by more than one page, or a restore of a snapshot that "
+                      "differs from the current contents." % (EXECUTIONS, RUNS, PROCESSES - 1))
     ck.assumptions += ["log2 page size 12; PIDs 1..NP; page fields other than PID/VAddr/PAddr vary together (dev)",
-                       "the map is observed through Find on every (process, page) after every step (Find creates empty "
-                       "per-process tables as a side effect in the current code)",
+                       "the map is observed through Find on every (process, page) after every step, visiting first the process the "
+                       "history addressed last and addressing it again at the end (Find creates empty per-process tables as a side "
+                       "effect in the current code)",
                        "single-threaded use of the page table"]
 
     walks, wl = (150, 60) if quick else (1500, 120)
-    hs = g.edge_cover(rng=ck.rng)
+    hs = g.edge_cover(rng=ck.rng) + gs.edge_cover(rng=ck.rng)
     n_cover = len(hs)
-    hs += g.random_walks(ck.rng, walks, wl)
+    hs += g.random_walks(ck.rng, walks, wl) + gs.random_walks(ck.rng, walks, wl)
 
     def shared_steps(h):
         out, cur = [], h["init"]
@@ -83,6 +98,8 @@ def run(ck):
             if a["op"] == "reverselookup" and len(_holders(cur, a["arg"])) > 1:
                 out.append(i)
             elif a["op"] == "ckpt" and any(len(_holders(cur, pa)) > 1 for pa in (1, 2)):
+                out.append(i)
+            elif a["op"] in RESTORES and cur["tbl"] != cur["snap"]:
                 out.append(i)
             cur = s["t"]
         return out
@@ -100,7 +117,9 @@ def run(ck):
     binary = ck.binary("vmcontainers")
     config = {"runs": RUNS, "npa": 2, "offs": [0, 4095]}
     batch = 1500
-    batches = [hs[i:i + batch] for i in range(0, len(hs), batch)]
+    # the driver observes the table only: the snapshot component of the states stays here
+    slim = [{"init": {"tbl": h["init"]["tbl"]}, "steps": [{"a": st["a"], "t": {"tbl": st["t"]["tbl"]}} for st in h["steps"]]} for h in hs]
+    batches = [slim[i:i + batch] for i in range(0, len(slim), batch)]
 
     def one(job):
         bi, proc = job
@@ -153,14 +172,15 @@ def run(ck):
         cases = []
         for (step, kind, pa), anss in sorted(answers.items()):
             if len(anss) > 1:
-                cases.append((step, "ckpt" if kind in ("cb", "ca") else "reverselookup", pa, sorted(anss),
+                cases.append((step, h["steps"][step]["a"]["op"], pa, sorted(anss),
                               "differs between executions of the same history"))
         # before/after a checkpoint round trip, inside one execution
         for pr in parsed:
             d = {(int(s), k, int(pa)): a for s, k, pa, a in pr}
             for (step, kind, pa), a in d.items():
-                if kind == "cb" and d.get((step, "ca", pa), a) != a:
-                    cases.append((step, "ckpt", pa, sorted({a, d[(step, "ca", pa)]}),
+                after = {"cb": "ca", "rb": "ra"}.get(kind)
+                if after and d.get((step, after, pa), a) != a:
+                    cases.append((step, h["steps"][step]["a"]["op"], pa, sorted({a, d[(step, after, pa)]}),
                                   "differs before/after checkpoint save/load"))
         done = set()
         for step, op, pa, anss, what in cases:
